@@ -243,10 +243,13 @@ static std::string cfgJson(Interpreter& interp) {
 	return o + "]";
 }
 
+// main trace line, and (prefixed with '#') the raw monitor stream of the same call,
+// which the parent routes to the separate raw file
 static void emitCall(FILE* out, const char* op, const std::string& arg, const char* ret, Recorder& rec, const std::string& cfg) {
 	fprintf(out, "{\"k\":\"call\",\"op\":\"%s\",\"arg\":%s,\"ret\":\"%s\",\"atoms\":[", op, arg.c_str(), ret);
 	for (size_t i = 0; i < rec.atoms.size(); i++) fprintf(out, "%s%s", i ? "," : "", rec.atoms[i].c_str());
-	fprintf(out, "],\"cfg\":%s,\"raw\":[", cfg.c_str());
+	fprintf(out, "],\"cfg\":%s}\n", cfg.c_str());
+	fprintf(out, "#{\"k\":\"raw\",\"op\":\"%s\",\"ret\":\"%s\",\"c\":[", op, ret);
 	for (size_t i = 0; i < rec.raw.size(); i++) fprintf(out, "%s%s", i ? "," : "", rec.raw[i].c_str());
 	fprintf(out, "]}\n");
 	rec.clear();
@@ -256,7 +259,7 @@ static int runCase(const Case& c, FILE* out) {
 	Recorder rec;
 	REC = &rec;
 	RecMonitor mon;
-	const int MAXSTEPS = 400;
+	const int MAXSTEPS = getenv("VERIF_MAXSTEPS") ? atoi(getenv("VERIF_MAXSTEPS")) : 400;
 
 	try {
 		Interpreter interp = Interpreter::fromXML(c.scxml, "file:///verif/case" + c.id + ".scxml");
@@ -369,8 +372,9 @@ int main(int argc, char** argv) {
 	if (argc < 3) { fprintf(stderr, "usage: interp_trace <batch> <out.ndjson> [timeout_s]\n"); return 2; }
 	std::ifstream in(argv[1], std::ios::binary);
 	FILE* out = fopen(argv[2], "w");
+	FILE* rawout = fopen((std::string(argv[2]) + ".raw").c_str(), "w");
 	int timeoutS = argc > 3 ? atoi(argv[3]) : 10;
-	if (!in || !out) { perror("open"); return 2; }
+	if (!in || !out || !rawout) { perror("open"); return 2; }
 	setenv("USCXML_NOCACHE_FILES", "YES", 1);
 
 	// make sure plugins are registered once, in the parent (no threads are started by this)
@@ -379,6 +383,7 @@ int main(int argc, char** argv) {
 	Case c;
 	while (readCase(in, c)) {
 		fprintf(out, "%s\n", c.header.c_str());
+		fprintf(rawout, "%s\n", c.header.c_str());
 		fflush(out);
 		int pfd[2];
 		if (pipe(pfd) != 0) { perror("pipe"); return 2; }
@@ -414,11 +419,23 @@ int main(int argc, char** argv) {
 		std::string body = lastnl == std::string::npos ? "" : buf.substr(0, lastnl + 1);
 		if (tail.compare(0, 10, "{\"k\":\"end\"") == 0) hasEnd = true;
 		else if (tail.size()) { /* truncated line of a crashed child: drop it */ }
-		fwrite(body.data(), 1, body.size(), out);
+		{
+			// route '#'-prefixed lines to the raw file
+			size_t pos = 0;
+			while (pos < body.size()) {
+				size_t nl = body.find('\n', pos);
+				if (nl == std::string::npos) nl = body.size() - 1;
+				if (body[pos] == '#') fwrite(body.data() + pos + 1, 1, nl - pos, rawout);
+				else fwrite(body.data() + pos, 1, nl - pos + 1, out);
+				pos = nl + 1;
+			}
+		}
 		if (hasEnd) fprintf(out, "%s,\"exit\":\"%s\"}\n", tail.c_str(), exitStr.c_str());
 		else fprintf(out, "{\"k\":\"end\",\"steps\":-1,\"dm\":[],\"last\":\"?\",\"limit\":false,\"exit\":\"%s\"}\n", exitStr.c_str());
+		fprintf(rawout, "{\"k\":\"end\",\"exit\":\"%s\"}\n", exitStr.c_str());
 		fflush(out);
 	}
 	fclose(out);
+	fclose(rawout);
 	return 0;
 }
